@@ -5,6 +5,9 @@ from harness import core
 from harness.core import enc_str, enc_val
 
 KEYS = ["a", "b", "C", "k", "f", "name", "id", "x1", "é"]
+# plain names (inside the properties' quantifier) that look like something else to some layer: percent escapes,
+# a name that is another key once decoded, digits, dots, dashes, text that is a function name without its brackets
+ODD_KEYS = ["%41", "A", "a%20b", "a.b", "x_y", "0", "k-1", "last", "text", "true", "new", "%", "%2F"]
 STRS = ["", "v", "1", "x y", "A", "True", "é", "0", "-1", "a/b", "last()"]
 
 
@@ -43,7 +46,8 @@ def gen_plain(rng, depth, kind=None, width=4):
         kind = rng.choice(["d", "d", "l"])
     if kind == "d":
         n = rng.choice([0, 1, 2, 2, 3, width])
-        ks = rng.sample(KEYS, min(n, len(KEYS)))
+        pool = KEYS + ODD_KEYS if rng.random() < 0.08 else KEYS
+        ks = rng.sample(pool, min(n, len(pool)))
         return {k: gen_plain(rng, depth - 1, None, width) for k in ks}
     n = rng.choice([0, 1, 2, 2, 3, width])
     if rng.random() < 0.04:
